@@ -1135,7 +1135,8 @@ func (e *c10) episode(n int, ep int) {
 				case 0:
 					e.upsertTok(ti, !cur.StakeEnabled, cur.StakeCap)
 				case 1:
-					e.upsertTok(ti, true, sdk.MustNewDecFromStr([]string{"0.5", "0.25", "0.1", "0.05", "0.4", "0.75"}[rng.Intn(6)]))
+					// (also for a token whose staking is, or is being, switched off: its cap counts all the same)
+					e.upsertTok(ti, rng.Intn(3) > 0, sdk.MustNewDecFromStr([]string{"0.5", "0.25", "0.1", "0.05", "0.4", "0.75"}[rng.Intn(6)]))
 				default:
 					// the largest cap the ENABLED tokens would leave room for
 					room := sdk.OneDec()
